@@ -78,7 +78,47 @@ func mutateBytes(r *gen.Rand, s string) (string, string) {
 	if len(b) == 0 {
 		return "\x00\xff{", "random-bytes"
 	}
-	switch r.Intn(8) {
+	switch r.Intn(9) {
+	case 8:
+		// the same text in another encoding, as editors on other platforms
+		// write it: byte-order marks, UTF-16 / UTF-32, sometimes with a byte
+		// too many or too few
+		var out []byte
+		kind := r.Pick("utf8-bom", "utf16le-bom", "utf16be-bom", "utf32le-bom", "utf32be-bom", "utf16le-bom", "utf32le-bom")
+		switch kind {
+		case "utf8-bom":
+			out = append([]byte{0xEF, 0xBB, 0xBF}, b...)
+		default:
+			wide, big := 2, strings.Contains(kind, "be")
+			if strings.HasPrefix(kind, "utf32") {
+				wide = 4
+			}
+			unit := func(c rune) []byte {
+				u := make([]byte, wide)
+				for k := 0; k < wide; k++ {
+					sh := uint(8 * k)
+					if big {
+						sh = uint(8 * (wide - 1 - k))
+					}
+					u[k] = byte(uint32(c) >> sh)
+				}
+				return u
+			}
+			out = unit(0xFEFF)
+			for _, c := range s {
+				if c > 0xFFFF && wide == 2 {
+					c = '?'
+				}
+				out = append(out, unit(c)...)
+			}
+		}
+		switch r.Intn(4) {
+		case 0:
+			out = append(out, '\n') // a tool that appends one byte
+		case 1:
+			out = out[:len(out)-1] // a copy cut one byte short
+		}
+		return string(out), "encoding:" + kind
 	case 7:
 		return r.Pick("", "\n", " ", "---\n", "null\n", "[]\n", "\"x\"\n", "---\n---\n"), "emptied"
 	case 0:
